@@ -23,14 +23,14 @@ type KVCfg struct {
 
 // KVOp is one call of one logical client.
 type KVOp struct {
-	C   int      `json:"c"`            // client: 0 = writer, 1.. = readers
-	K   string   `json:"k"`            // batch | open | close | get | multiget | prefix | range | next | seek | cur | itclose
-	Ops []KVBOp  `json:"ops,omitempty"`  // batch
-	Key int      `json:"key,omitempty"`  // index into the key space
-	Ks  []int    `json:"ks,omitempty"`   // multiget
-	A   int      `json:"a,omitempty"`    // range start (-1 = nil)
-	Z   int      `json:"z,omitempty"`    // range end (-1 = nil)
-	It  int      `json:"it,omitempty"`   // iterator slot (0/1)
+	C   int     `json:"c"`             // client: 0 = writer, 1.. = readers
+	K   string  `json:"k"`             // batch | open | close | get | multiget | prefix | range | next | seek | cur | itclose
+	Ops []KVBOp `json:"ops,omitempty"` // batch
+	Key int     `json:"key,omitempty"` // index into the key space
+	Ks  []int   `json:"ks,omitempty"`  // multiget
+	A   int     `json:"a,omitempty"`   // range start (-1 = nil)
+	Z   int     `json:"z,omitempty"`   // range end (-1 = nil)
+	It  int     `json:"it,omitempty"`  // iterator slot (0/1)
 }
 
 // KVBOp is one operation inside a batch.
